@@ -33,19 +33,17 @@ def gen_case(rng, tier):
     try:
         want = rng.randint(2, 30 if tier == "quick" else 60)
         pool = W.gen_pool(rng, CFG, want if fmt == "naunet" else 3 * want, 0, gas_only=(fmt != "naunet"))
+        if fmt != "naunet":
+            pool = [ar for ar in pool if fmt in W.formats_for(CFG, ar)][:want]
+            if len(pool) < 2:
+                fmt = "naunet"
+                pool = W.gen_pool(rng, CFG, want, 0)  # still inside the grain-free sub-alphabet
     finally:
         cfg["alphabet"] = saved
     for ar in pool:
         if ar["rtype"] == W.RT_UNKNOWN:
             ar["rtype"] = W.RT_TWOBODY
-    if fmt != "naunet":
-        pool = [ar for ar in pool if fmt in W.formats_for(CFG, ar)][:want]
-        if len(pool) < 2:
-            fmt = "naunet"
-            pool = W.gen_pool(rng, CFG, want, 0)
-            for ar in pool:
-                if ar["rtype"] == W.RT_UNKNOWN:
-                    ar["rtype"] = W.RT_TWOBODY
+    assert not any(W.is_grain(x) for ar in pool for x in W.species_of(ar)), "extend cases are generated without grain species"
     opts = {
         "remove_species": [],
         "reduce_by_species": [],
